@@ -800,6 +800,8 @@ func isConfigGetter(n string) bool {
 }
 
 var c11Canaries = []Canary{
+	{Name: "r7-update-judges-lfsconfig-value", ExpectKey: "C11.R4#update:judges-effective-access-value", Edits: []Edit{{File: "commands/command_update.go", Find: "\tsetupRepository()\n\n\tlfsAccessRE := regexp.MustCompile(`\\Alfs\\.(.*)\\.access\\z`)\n\tfor key, _ := range cfg.Git.All() {\n\t\tmatches := lfsAccessRE.FindStringSubmatch(key)\n\t\tif len(matches) < 2 {\n\t\t\tcontinue\n\t\t}\n\n\t\tvalue, _ := cfg.Git.Get(key)\n\n\t\tswitch value {\n\t\tcase \"basic\":\n", Repl: "\tsetupRepository()\n\n\tlfsAccessRE := regexp.MustCompile(`\\Alfs\\.(.*)\\.access\\z`)\n\tfor key, values := range cfg.Git.All() {\n\t\tmatches := lfsAccessRE.FindStringSubmatch(key)\n\t\tif len(matches) < 2 || len(values) == 0 {\n\t\t\tcontinue\n\t\t}\n\n\t\tvalue := values[0]\n\n\t\tswitch value {\n\t\tcase \"basic\":\n"}}},
+	{Name: "r7-priority-zero-dropped", ExpectKey: "C11.R4#extension-priority:zero-is-stored", Edits: []Edit{{File: "config/git_fetcher.go", Find: "import (\n\t\"fmt\"\n\t\"os\"\n\t\"strconv\"\n\t\"strings\"\n\t\"sync\"\n\n", Repl: "import (\n\t\"fmt\"\n\t\"os\"\n\t\"strings\"\n\t\"sync\"\n\n"}, {File: "config/git_fetcher.go", Find: "\t\t\t\t\text.Smudge = val\n\t\t\t\tcase \"priority\":\n\t\t\t\t\tallowed = true\n\t\t\t\t\tp, err := strconv.Atoi(val)\n\t\t\t\t\tif err == nil && p >= 0 {\n\t\t\t\t\t\text.Priority = p\n\t\t\t\t\t}\n\t\t\t\t}\n", Repl: "\t\t\t\t\text.Smudge = val\n\t\t\t\tcase \"priority\":\n\t\t\t\t\tallowed = true\n\t\t\t\t\t// Invalid values fall back to the default priority.\n\t\t\t\t\tif p := Int(val, 0); p > 0 {\n\t\t\t\t\t\text.Priority = p\n\t\t\t\t\t}\n\t\t\t\t}\n"}}},
 	{Name: "r6-fetch-paths-first-value", ExpectKey: "C11.R2#fetch-paths:last-value-wins", Edits: []Edit{{File: "config/config.go", Find: "}\n\nfunc (c *Configuration) FetchIncludePaths() []string {\n\tpatterns, _ := c.Git.Get(\"lfs.fetchinclude\")\n\treturn tools.CleanPaths(patterns, \",\")\n}\n\nfunc (c *Configuration) FetchExcludePaths() []string {\n\tpatterns, _ := c.Git.Get(\"lfs.fetchexclude\")\n\treturn tools.CleanPaths(patterns, \",\")\n}\n\nfunc (c *Configuration) CurrentRef() *git.Ref {\n", Repl: "}\n\nfunc (c *Configuration) FetchIncludePaths() []string {\n\treturn c.fetchPaths(\"lfs.fetchinclude\")\n}\n\nfunc (c *Configuration) FetchExcludePaths() []string {\n\treturn c.fetchPaths(\"lfs.fetchexclude\")\n}\n\n// fetchPaths returns the cleaned path patterns of a comma-separated option,\n// which may be given more than once.\nfunc (c *Configuration) fetchPaths(key string) []string {\n\tvar paths []string\n\tfor _, patterns := range c.Git.GetAll(key) {\n\t\tpaths = append(paths, tools.CleanPaths(patterns, \",\")...)\n\t}\n\treturn paths\n}\n\nfunc (c *Configuration) CurrentRef() *git.Ref {\n"}}},
 	{Name: "r5-extension-command-unrestricted", ExpectKey: "C11.R5#extension-command", Edits: []Edit{{File: "config/git_fetcher.go", Find: "\t\t\t\tcase \"clean\":\n\t\t\t\t\tif gc.OnlySafeKeys {\n\t\t\t\t\t\tignored = append(ignored, key)\n\t\t\t\t\t\tcontinue\n\t\t\t\t\t}\n\t\t\t\t\text.Clean = val", Repl: "\t\t\t\tcase \"clean\":\n\t\t\t\t\text.Clean = val"}}},
 	{Name: "r4-duplicate-values-dropped", ExpectKey: "C11.R2#readGitConfig:every", Edits: []Edit{{File: "config/git_fetcher.go", Find: "\t\t\tvals[key] = append(vals[key], val)", Repl: "\t\t\tif len(vals[key]) > 0 && vals[key][len(vals[key])-1] == val {\n\t\t\t\tcontinue\n\t\t\t}\n\t\t\tvals[key] = append(vals[key], val)"}}},
